@@ -1037,10 +1037,17 @@ def run(chk):
 def replay(chk, rp):
     """re-run one recorded kill point (or the whole check when the replay carries none)"""
     print(json.dumps({k: rp[k] for k in rp if k in ("finding_key", "what", "kill_before_call", "call", "killed_build_index")}, indent=1))
-    if "history" not in rp or ("killed_build_index" not in rp and "whole_history_process" not in rp):
+    if "history" not in rp or ("killed_build_index" not in rp and "whole_history_process" not in rp and "build_index" not in rp):
         return run(chk)
     drv, model = setup(chk)
     chk.proof_gate()
+    if "build_index" in rp and "killed_build_index" not in rp:
+        # a finding without a kill: the history again, one process per build, the tables read after every build
+        n = chain_check(chk, drv, rp["history"], "replay_chain")
+        print("uncrashed history replayed: %d builds, invariant read from the tables after each" % n)
+        model.close()
+        shutil.rmtree(RUN, ignore_errors=True)
+        return chk.finish(level="proof", rule="replay of one recorded uncrashed history")
     if "killed_build_index" in rp:
         t = Target(chk, drv, model, rp["history"], rp["killed_build_index"], "replay")
     else:
